@@ -171,6 +171,15 @@ var richForms = []richForm{
 		j := gen.Pick(c.R, []string{"JOIN", "LEFT JOIN", "RIGHT JOIN", "HASH_JOIN", "STRAIGHT_JOIN"})
 		return "SELECT * FROM t1 x " + j + " u1 y ON x.n1 = y.un1 AND " + vf + "(true)"
 	}},
+	{"join.parallel", true, true, func(c *fw.Case, d *richDoc, vf string) string {
+		j := gen.Pick(c.R, []string{"PARALLEL JOIN", "PARALLEL LEFT JOIN", "PARALLEL RIGHT JOIN", "PARALLEL STRAIGHT_JOIN", "PARALLEL HASH_JOIN"})
+		on := gen.Pick(c.R, []string{"x.n1 >= y.un1", "x.n1 != y.un1", "x.n1 = y.un1 OR x.s1 = y.us1", "x.n1 = y.un1"})
+		return "SELECT * FROM t1 x " + j + " u1 y ON " + on + " AND " + vf + "(true)"
+	}},
+	{"join.nonequi", true, true, func(c *fw.Case, d *richDoc, vf string) string {
+		j := gen.Pick(c.R, []string{"JOIN", "LEFT JOIN", "RIGHT JOIN"})
+		return "SELECT * FROM t1 x " + j + " u1 y ON x.n1 <= y.un1 AND " + vf + "(true)"
+	}},
 	{"join.where", true, true, func(c *fw.Case, d *richDoc, vf string) string {
 		return "SELECT x.rid, y.un1 FROM t1 x JOIN u1 y ON x.n1 >= y.un1 WHERE " + vf + "(true)"
 	}},
@@ -179,6 +188,10 @@ var richForms = []richForm{
 	}},
 	{"cte.chain", true, false, func(c *fw.Case, d *richDoc, vf string) string {
 		return "WITH c1 AS (SELECT rid, n1, s1 FROM t1), c2 AS (SELECT rid, " + vf + "(n1) AS v FROM c1 WHERE " + vf + "(n1) > " + numConst(c, d) + ") SELECT * FROM c2"
+	}},
+	{"cte.shadow", true, false, func(c *fw.Case, d *richDoc, vf string) string {
+		// a CTE named like a table that already exists in the document
+		return "WITH u1 AS (SELECT rid, " + vf + "(n1) AS n1 FROM t1 WHERE n1 >= " + numConst(c, d) + ") SELECT rid, n1 FROM u1" + gen.Pick(c.R, []string{"", " UNION ALL SELECT rid, n1 FROM u1", " WHERE n1 IN (SELECT n1 FROM `<-u1`)"})
 	}},
 	{"cte.union", true, false, func(c *fw.Case, d *richDoc, vf string) string {
 		return "WITH c1 AS (SELECT rid, " + vf + "(n1) AS v FROM t1) SELECT v FROM c1 " + gen.Pick(c.R, []string{"UNION", "UNION ALL"}) + " SELECT v FROM c1 WHERE v > " + numConst(c, d)
